@@ -93,6 +93,9 @@ func (rt *peerRT) RoundTrip(req *http.Request) (*http.Response, error) {
 	case "http500":
 		rec.WriteHeader(500)
 		rec.WriteString("internal error")
+	case "http400":
+		rec.WriteHeader(400)
+		rec.WriteString("i'm not leader, so can't tell you revision")
 	default:
 		target.Status.ServeHTTP(rec, req)
 		n.Served = append(n.Served, PeerServe{From: rt.from, Host: req.URL.Host, Step: s.StepNo(), Revision: target.B.GetCurrentRevision(), Code: rec.Code})
